@@ -240,6 +240,15 @@ fn other_stream_cases() -> Vec<Case> {
         Vec::new(),
     );
     add("macro|self_recursive_in_dcs", 0, 0, format!("\x1bP0;0;1!z{}\x1b\\\x1bP0;0;0!zx\x1b[0*zy\x1b\\", hex(b"\x1bP\x1b[0*z\x1b\\")).into_bytes(), Vec::new());
+    // macro k invokes macro k-1 twice: work/memory double with every definition (n bytes of input -> 2^(n/25) output)
+    for depth in [6usize, 12, 18, 24, 30] {
+        let mut sq = b"\x1bP0;0;0!zAB\x1b\\".to_vec();
+        for k in 1..=depth {
+            sq.extend_from_slice(format!("\x1bP{k};0;0!z\x1b[{p}*z\x1b[{p}*z\x1b\\", p = k - 1).as_bytes());
+        }
+        sq.extend_from_slice(format!("\x1b[{depth}*z").as_bytes());
+        add("macro|definition_doubling", 0, 0, sq, Vec::new());
+    }
     for n in sizes {
         // hex repeat groups: the stored macro grows with n; invocation replays it
         add("macro|hex_repeat_count", 0, 0, format!("\x1bP0;0;1!z!{n};41;\x1b\\\x1b[0*z").into_bytes(), format!("\x1bP0;0;1!z!{H};41;\x1b\\\x1b[0*z").into_bytes());
@@ -503,6 +512,70 @@ fn main() {
         move |i| {
             let mut c = file_case(&goldens, i);
             c.skip = st3(&c.family);
+            c
+        },
+        check,
+        classify,
+    );
+
+    // state-setting sequences with large numbers, each followed by every control function with small parameters:
+    // the work of the SECOND sequence must not depend on the numbers of the first
+    let setters: Vec<(&'static str, String)> = {
+        let mut v = Vec::new();
+        for n in LARGE {
+            v.push(("margins_tb_bottom", format!("\x1b[1;{n}r")));
+            v.push(("margins_tb_both", format!("\x1b[{n};{n}r")));
+            v.push(("margins_tb_single", format!("\x1b[{n}r")));
+            v.push(("margins_lr_right", format!("\x1b[?69h\x1b[1;{n}s")));
+            v.push(("margins_lr_both", format!("\x1b[?69h\x1b[{n};{n}s")));
+            v.push(("scroll_region_4", format!("\x1b[1;{n};1;{n}r")));
+            v.push(("scroll_region_3", format!("\x1b[1;{n};1r")));
+            for k in 0..4 {
+                v.push(("specific_margin", format!("\x1b[={k};{n}m")));
+            }
+            v.push(("origin_mode+margins", format!("\x1b[1;{n}r\x1b[?6h")));
+            v.push(("tab_far_right", format!("\x1b[{n}G\x1bH\x1b[1G")));
+            v.push(("cursor_far", format!("\x1b[{n};{n}H")));
+        }
+        v
+    };
+    let n_set = setters.len() as u64;
+    let st6 = steered.clone();
+    eng.enumerated_with_class(
+        PartCfg::new("csi_pairs", 0, 0).isolated().timeout_ms(6_000).hang_is_violation(true).heap_cap(2 << 30).exhaustive(true),
+        n_set * 63 * 8 * 3 + n_set * 3,
+        move |i| {
+            let main = n_set * 63 * 8 * 3;
+            let (si, action): (usize, Vec<u8>) = if i < main {
+                let si = (i % n_set) as usize;
+                let r = i / n_set;
+                let pv = r % 3;
+                let inter = INTERS[((r / 3) % 8) as usize];
+                let fin = 0x40 + (r / 24) as u8;
+                let ps: Vec<u32> = match pv {
+                    0 => vec![],
+                    1 => vec![1],
+                    _ => vec![H as u32],
+                };
+                (si, render_csi(inter, fin, &ps, |_| H as u32, false))
+            } else {
+                let j = i - main;
+                let si = (j % n_set) as usize;
+                let a = match j / n_set {
+                    0 => b"\n\n\n".to_vec(),
+                    1 => vec![b'x'; 200],
+                    _ => b"\x1bM\x1bM\x1bD\x1bE".to_vec(),
+                };
+                (si, a)
+            };
+            let (name, setter) = &setters[si];
+            let mut large = setter.clone().into_bytes();
+            large.extend_from_slice(&action);
+            // baseline: the same pair with the screen size in place of the large number
+            let mut base = setter.replace("65536", "25").replace("1000000", "25").replace("2147483647", "25").into_bytes();
+            base.extend_from_slice(&action);
+            let mut c = Case { family: format!("pair|{name}"), prefix: (i % 2) as u8, emu: 0, large: Bytes(large), base: Bytes(base), ext: String::new(), skip: false };
+            c.skip = st6(&c.family);
             c
         },
         check,
